@@ -69,3 +69,7 @@ def run(repo, run, tier):
     # advance with exactly that row (not, e.g., with the last row of A for tables that merely have c_s = 1)
     from .c02 import increment
     increment(repo, run, rule_id="C11.4")
+    # ... and the stage equations that are solved must be those of the table (every stage slope is f at that stage's own time and state, not a value
+    # cached from elsewhere): R(z) is the stability function of exactly that system
+    from .c02 import stage_args
+    stage_args(repo, run, rule_id="C11.5")
